@@ -69,3 +69,19 @@ Definition run_path (path : list elem) (dmin dmax : option Q) (dsp : Q) (l : lis
     | Ok s1 => join "|" (append "F:" (ids_s s1) ::
                          map (fun r => match r with Ok s => hist_s s | Err m => err_s m end) (propagate_trace path s1))
     end).
+
+(* ---------- construction of the launched spectrum ---------- *)
+Definition kc (i : Z) (f b w : Q) : Q * carrier := (f, mkK i b w "" 0 0 0 0).
+Definition run_cts (d : list (Q * carrier)) : string := res_s (carriers_to_si d).
+(* create_arbitrary_spectral_information with list arguments of the given lengths *)
+Definition run_cols (ids : list Z) (fs bs ws : list Q) (nl no nt nd nr : nat) : string :=
+  res_s (create_arbitrary_cols
+           (mkCols ids fs bs ws (repeat ""%string nl) (repeat 0 no) (repeat 0 nt) (repeat 0 nd) (repeat 0 nr))).
+(* number of channels ; frequencies *)
+Definition run_grid (fmin fmax sp baud : Q) : string :=
+  match create_input_si fmin fmax sp baud "" [] with
+  | Ok s => append (zs (Z.of_nat (length s))) (append ";" (join "," (map (fun x => qs (cf x)) s)))
+  | Err e => err_s e
+  end.
+Definition run_fcr_gen (amps : list (list rband)) (dmin dmax : option Q) (dsp : Q) (ddb : list band) : string :=
+  join ";" (map band_s (find_common_range_gen amps dmin dmax dsp ddb)).
